@@ -155,6 +155,28 @@ class U:
         for uid in ('S1', 'S2'):
             o[uid] = StickyNote(uid.lower(), 'text')
             m[uid] = {'kind': 'sticky'}
+        # --- coincidence objects (fourth mutation round): dots inside names, a sticky note whose text is empty (it is
+        # falsy), instances of user subclasses of the model classes
+        enum('E4', 'c', ['x'], schema='a.b')
+        enum('E5', 'b.c', ['x'], schema='a')
+        o['S3'], o['S4'] = StickyNote('s3', ''), StickyNote('s4', None)
+        m['S3'], m['S4'] = {'kind': 'sticky'}, {'kind': 'sticky'}
+        MyTable, MyEnum, MyGroup = type('MyTable', (Table,), {}), type('MyEnum', (Enum,), {}), type('MyGroup', (TableGroup,), {})
+        MyProject, MySticky, MyRef = type('MyProject', (Project,), {}), type('MySticky', (StickyNote,), {}), type('MyRef', (Reference,), {})
+        t8 = MyTable('subt')
+        t8.add_column(Column('id', 'int'))
+        o['T8'] = t8
+        m['T8'] = {'kind': 'table', 'schema': 'public', 'name': 'subt', 'alias': None, 'cols': (('id', 'int'),)}
+        o['E6'] = MyEnum('sube', ['x'])
+        m['E6'] = {'kind': 'enum', 'schema': 'public', 'name': 'sube', 'items': ('x',)}
+        o['G4'] = MyGroup('subg', [])
+        m['G4'] = {'kind': 'group', 'name': 'subg'}
+        o['P3'] = MyProject('subp')
+        m['P3'] = {'kind': 'project'}
+        o['S5'] = MySticky('s5', 'text')
+        m['S5'] = {'kind': 'sticky'}
+        o['R4'] = MyRef('>', T6['id'], T1['id'])
+        m['R4'] = {'kind': 'ref', 'tables': ('T6', 'T1'), 'eq': 'r4'}
         o['U1'], o['U2'], o['U3'] = 'a string', 42, Column('loose', 'int')
         for uid in ('U1', 'U2', 'U3'):
             m[uid] = {'kind': 'unsupported'}
@@ -196,6 +218,9 @@ DB_OBJECTS = ['T1', 'T1b', 'T2', 'T3', 'T4', 'T5', 'T6', 'T7', 'E1', 'E1b', 'E2'
               'P1', 'P2', 'S1', 'S2', 'U1', 'U2', 'U3']
 DB_OPS = [('add', x) for x in DB_OBJECTS] + [('del', x) for x in DB_OBJECTS if x not in ('U3',)] + \
          [('ren', t, f) for t in ('T1', 'T3', 'T6') for f in ('name', 'schema', 'alias')] + [('delproject',)]
+EXTRA_OBJECTS = ['E4', 'E5', 'S3', 'S4', 'T8', 'E6', 'G4', 'P3', 'S5', 'R4']
+EXTRA_OPS = [('add', x) for x in EXTRA_OBJECTS] + [('del', x) for x in EXTRA_OBJECTS]
+NEAR_OPS = EXTRA_OPS + [('add', 'T6'), ('add', 'T1'), ('add', 'P1'), ('del', 'P1'), ('add', 'S1'), ('delproject',)]
 TYPED = {'table': ('add_table', 'delete_table'), 'enum': ('add_enum', 'delete_enum'), 'group': ('add_table_group', 'delete_table_group'),
          'ref': ('add_reference', 'delete_reference'), 'project': ('add_project', None), 'sticky': ('add_sticky_note', None)}
 
@@ -700,6 +725,22 @@ def run_shard(spec, tier, seed, budget_s):
                 break
             run_db_history(sh, ops)
             sh.count(f'obs.db_histories.depth{depth}')
+    # the coincidence objects: all histories of length <= 2 over every operation with at least one of them, length 3 among
+    # themselves and their neighbours; generic and typed entry points
+    for depth, pool in ((1, EXTRA_OPS), (2, None), (3, NEAR_OPS)):
+        if pool is None:
+            gen_ = itertools.chain(itertools.product(EXTRA_OPS, DB_OPS + EXTRA_OPS), itertools.product(DB_OPS, EXTRA_OPS))
+        else:
+            gen_ = itertools.product(pool, repeat=depth)
+        for ops in gen_:
+            j += 1
+            if j % n != i:
+                continue
+            if sh.out_of_time():
+                sh.inconclusive.append('enumeration over the coincidence objects did not finish in the time budget')
+                break
+            run_db_history(sh, ops, typed_mask=0 if j % 3 else (1 << depth) - 1)
+            sh.count('obs.db_histories.coincidence')
     # typed entry points: all histories of length <= 2 with every call through the typed method
     for depth in (1, 2):
         for ops in itertools.product(DB_OPS, repeat=depth):
@@ -746,7 +787,7 @@ def run_shard(spec, tier, seed, budget_s):
     while k < target and not sh.out_of_time():
         k += 1
         L = rng.randint(5, 30)
-        ops = tuple(rng.choice(DB_OPS) for _ in range(L))
+        ops = tuple(rng.choice(DB_OPS + EXTRA_OPS) for _ in range(L))
         run_db_history(sh, ops, typed_mask=rng.getrandbits(L))
         sh.count('obs.db_histories.random')
         ops = tuple(rng.choice(T_OPS) for _ in range(L))
